@@ -171,6 +171,17 @@ func (v *FnVC) specTerm(e Expr, env *Env, cl *Clause) Term {
 		} else if len(ranges) > 0 {
 			body = implies(and(ranges...), body)
 		}
+		if len(x.Triggers) > 0 {
+			var pats []string
+			for _, tg := range x.Triggers {
+				var ts []string
+				for _, te := range tg {
+					ts = append(ts, v.specTerm(te, &ne, cl).S)
+				}
+				pats = append(pats, ":pattern ("+strings.Join(ts, " ")+")")
+			}
+			body = fmt.Sprintf("(! %s %s)", body, strings.Join(pats, " "))
+		}
 		return Term{fmt.Sprintf("(%s (%s) %s)", q, strings.Join(binds, " "), body), tBool}
 	}
 	v.specFail(cl, "unsupported expression %s", e)
